@@ -46,7 +46,7 @@ RECURSIVE NodeCount(_)
 RECURSIVE SumNodes(_,_)
 SumNodes(a, i) == IF i > Len(a) THEN 0 ELSE NodeCount(a[i]) + SumNodes(a, i + 1)
 NodeCount(e) == IF e.k \in {"int", "id"} THEN 1
-                ELSE 1 + SumNodes(e.a, 1) + (IF e.k = "mem" THEN SumNodes(e.g, 1) ELSE 0)
+                ELSE 1 + SumNodes(e.a, 1)          \* a segment annotation is not counted
 
 \* slots of a compose tile [0, W) without gap or overlap (in some order)
 RECURSIVE TileFrom(_,_,_)
